@@ -9,24 +9,40 @@
 (*   "ctl"  to | start | startn k | stop | rxok | rxbad | disc           (manual start)                  *)
 (*   "all"  everything the configuration offers (used with -simulate for long random behaviours)         *)
 (* BFS prints every behaviour of exactly D free operations; with -simulate the random ones.              *)
+(* One TLC run serves several plans: a plan = harness configuration x family x D x MaxChg, encoded as the *)
+(* number cfg * 1000000 + family * 10000 + D * 100 + MaxChg (family 1 map, 2 iv, 3 ctl, 4 all); the        *)
+(* first element of a behaviour names its plan.                                                          *)
 EXTENDS AdvertisingMC, Json
 
-CONSTANTS Fam, D, MaxChg,
-          GAuto, GVarMap, GVarIv, GIv0        \* the compiled configuration (harness ADV_CFG)
+CONSTANT Plans
 
-VARIABLES hist,    \* operations so far
+VARIABLES plan,    \* the plan of this behaviour
+          hist,    \* operations so far
           stage,   \* 0: choose map, 1: start choice, 2: run, 3: free operations
           nfree,   \* free operations so far
           nchg     \* map / interval calls so far
-gvars == <<vars, hist, stage, nfree, nchg>>
+gvars == <<vars, plan, hist, stage, nfree, nchg>>
+
+\* the compiled configurations (harness ADV_CFG): 1 manual start, run-time map and interval; 2 the same with
+\* automatic start; 3 automatic, fixed map, 20 ms; 4 manual, fixed map, 10.24 s
+CfgId  == plan \div 1000000
+Fam    == CASE (plan \div 10000) % 100 = 1 -> "map" [] (plan \div 10000) % 100 = 2 -> "iv"
+            [] (plan \div 10000) % 100 = 3 -> "ctl" [] OTHER -> "all"
+D      == (plan \div 100) % 100
+MaxChg == plan % 100
+GAuto   == CfgId \in {2, 3}
+GVarMap == CfgId \in {1, 2}
+GVarIv  == CfgId \in {1, 2}
+GIv0    == CASE CfgId = 3 -> 20000 [] CfgId = 4 -> 10240000 [] OTHER -> 100000
 
 GCfg == [auto |-> GAuto, iv |-> GIv0, own |-> OwnA, ownr |-> TRUE, wln |-> 0, types |-> <<0>>, varmap |-> GVarMap, variv |-> GVarIv]
 
 GInit ==
+    /\ plan \in Plans
     /\ cfg = GCfg /\ phase = "init" /\ pend = FALSE /\ on = GAuto /\ left = -1
     /\ map = Chans /\ iv = GIv0 /\ ivs = {GIv0} /\ ev = NoEvent /\ owed = [n |-> 0, chain |-> FALSE]
     /\ lastAdv = <<>> /\ prop = 0 /\ peer = <<>> /\ wl = {} /\ connF = FALSE /\ scanF = FALSE
-    /\ hist = <<>> /\ stage = 0 /\ nfree = 0 /\ nchg = 0
+    /\ hist = << <<"plan", plan>> >> /\ stage = 0 /\ nfree = 0 /\ nchg = 0
 
 Do(ops) == hist' = hist \o ops
 
@@ -62,8 +78,8 @@ Free(ntx) ==
           \/ Disc(ntx) /\ Do(<< <<"disc">> >>)
 
 GNext ==
-    \/ owed.n > 0 /\ CanonTx /\ UNCHANGED <<hist, stage, nfree, nchg>>
-    \/ /\ owed.n = 0
+    \/ owed.n > 0 /\ CanonTx /\ UNCHANGED <<plan, hist, stage, nfree, nchg>>
+    \/ /\ owed.n = 0 /\ UNCHANGED plan
        /\ \E ntx \in Bit :
           \/ /\ stage = 0 /\ stage' = 1 /\ UNCHANGED <<nfree, nchg>>
              /\ \E m \in (IF GVarMap /\ Fam # "ctl" THEN SUBSET Chans \ {{}} ELSE {Chans}) : SetMap(m, ntx) /\ Do(RemOps(m))
